@@ -11,6 +11,7 @@ struct RunOpts {
     bool check_leaks = true;
     bool check_usage = false;    // attached-buffer usage accounting (C13)     // resource accounting when every file is closed (C17)
     bool record_iocalls = false;
+    int stop_after_op = -1;      // fault runs: every rank stops after this op (no epilogue)
     bool trace = false;
     bool layout_strict = true;   // C03 layout rules at checkpoints
     long long alloc_limit = 0;   // 0 = none; else flag single allocations above (C19)
